@@ -7,6 +7,8 @@ CONSTANTS
  MetaCat <- MCMetaCat
  WFItems <- MCWFItems
  WFMetas <- MCWFMetas
+ MetaItems <- MCMetaItems
+ MetaAll <- MCMetaAll
  BadBases <- MCBadBases
  Damage <- MCDamage
  PairBases <- MCPairBases
